@@ -5,7 +5,8 @@ pid = sys.argv[1]
 wt = sys.argv[2] if len(sys.argv) > 2 else pid
 wave2 = len(sys.argv) > 3
 wave3 = len(sys.argv) > 3 and sys.argv[3] == 'w3'
-wave4 = len(sys.argv) > 3 and sys.argv[3] in ('w4', 'w5', 'w6', 'w7', 'w8', 'w9')
+wave4 = len(sys.argv) > 3 and sys.argv[3] in ('w4', 'w5', 'w6', 'w7', 'w8', 'w9', 'w10')
+wave10 = len(sys.argv) > 3 and sys.argv[3] == 'w10'
 wave9 = len(sys.argv) > 3 and sys.argv[3] == 'w9'
 wave8 = len(sys.argv) > 3 and sys.argv[3] == 'w8'
 wave7 = len(sys.argv) > 3 and sys.argv[3] == 'w7'
@@ -26,6 +27,8 @@ if wave8:
     extra += " For this round: m1 must be a subtle PARTIAL REGRESSION of, or a new slip inside, code that recent commits added or rewrote (see `git log --oneline -60`, in particular commits whose message starts with 'fix:'): keep the repair working for the case its commit message describes, but break a sibling case, a second call site, an error/cleanup path of the new code, or its interplay with another repair. m2 must live in code that runs rarely or late: error and cleanup paths (defers, failed or cut transfers, refused requests, failed writes of one of two files), connection teardown, timers and background goroutines, start-up/reload of files written by an earlier run, or the second and later uses of a long-lived object (second transfer on a connection table, second chat, second restart, id or counter reuse). Both must still genuinely break the property as stated, through inputs the property quantifies over."
 if wave9:
     extra += " For this round: m1 must break one side of a MIRRORED PAIR that has to stay symmetric - encode vs decode, save vs load, add vs remove, join vs leave, create vs delete, open vs close, reserve vs release, the 2-byte vs the 4-byte form of an integer, the request path vs the transfer-connection path of the same operation - so that each side still looks right on its own and only a round trip, or the second half of the pair arriving later or from another user, shows the damage. m2 must depend on the protocol STATE in which a request arrives or on REPETITION: the same request sent twice, a request sent before the session finished logging in / agreed or after its teardown began, a transfer connection presenting a reference number of a different kind of transfer or one already used, an id or name being reused right after it was freed, counters or sizes that wrap, truncate or go negative in integer arithmetic. Both must still genuinely break the property as stated, through inputs the property quantifies over."
+if wave10:
+    extra += " For this round: m1 must only show at SCALE or after ACCUMULATION - collections with many elements (255/256/257 or 65535/65536 entries, users, files in one folder, articles in one category, members of a chat, path depth, pending transfers), totals summed over many items, or state that builds up over many operations of a long-lived server (tables that are never pruned, counters, ids, file sizes growing past a limit) - while small, fresh instances behave perfectly. m2 must concern a MULTI-ELEMENT operation (a batched request with several sub-entries, a folder transfer with several items, a request with several fields of the same kind, a notification fanned out to several recipients, a start-up load of several files) in which one element is unusual, fails or is refused: what then happens to the elements before and after it - skipped, applied twice, applied to the wrong target, left half-done - must break the property, while the all-good and the single-element cases still work. Both must still genuinely break the property as stated, through inputs the property quantifies over."
 if wave5:
     extra += " The THREE changes must be of three different kinds: m1 must need two sessions (or a session and a transfer connection) whose operations interleave or follow each other in a particular order; m2 must only show after a restart, reload or crash, or through files left behind on disk; m3 must only show for particular input encodings, lengths or boundary values. At least one of the three must be in a file that is NOT among the code anchors listed above."
 p = next(json.loads(l) for l in open('/verif/properties.jsonl') if json.loads(l)['id'] == pid)
